@@ -7,7 +7,9 @@
    by a render cycle or by shutdown" made every request a blocking send of the
    container goroutine, which is what the fifo of this model describes. *)
 From Coq Require Import Permutation Sorted.
-From MPB Require Import Base BaseProofs BarState Container ContainerProofs.
+From MPB Require Import Base BaseProofs BarState Container ContainerProofs GenChecks.
+From MPB.gen Require Import GenApi.
+From Coq Require Import String.
 
 (* a bar is in exactly one of: heap, request queue, flush's push list, popped
    awaiting flush, parked behind a predecessor — or it has left for good; it
@@ -37,6 +39,14 @@ Theorem C05_requests_in_order : forall p a d evs s,
   run (init_cst p a d) evs = Some s -> QShape s.
 Proof. intros p a d evs s H. exact (inv_qshape s (reachable_Inv _ _ _ _ _ H)). Qed.
 Print Assumptions C05_requests_in_order.
+
+(* from the source, regenerated on every run: every request to the heap manager is one blocking send by the
+   calling goroutine — no detached sender can be overtaken by a later request (the pinned tree's defect) *)
+Theorem C05_heap_requests_are_blocking_sends :
+  forallb (fun m => String.eqb (snd m) "send") hm_methods = true /\
+  map fst hm_methods = ["sync"; "push"; "iter"; "fix"; "state"; "end"]%string.
+Proof. exact heap_requests_are_blocking_sends. Qed.
+Print Assumptions C05_heap_requests_are_blocking_sends.
 
 (* non-vacuity: a two-bar run with a completion is accepted *)
 Example C05_nonvacuous :
